@@ -305,6 +305,9 @@ func raceKey(rep string) (key string, harnessOnly bool) {
 	return "race:" + strings.Join(frames, "|"), harnessOnly && sec > 0
 }
 
+// RaceKey is the stable signature of a race report and whether both stacks lie in the harness.
+func RaceKey(rep string) (key string, harnessOnly bool) { return raceKey(rep) }
+
 // IsKnown tells an engine whether a violation class is a listed known finding (so that an
 // enumeration inside one record can continue past it).
 func IsKnown(prop, key string) bool {
